@@ -18,7 +18,7 @@ func init() {
 	run.Register(&run.Check{
 		ID:    "C15",
 		Level: "exploration",
-		Rule: "cases: histories of up to 40 InsertObject / DeleteObject / SetResources calls on one PolicyEngine (pods with controller owners - several per owner - relabelled, re-ported, added, deleted; namespaces inserted, relabelled, deleted; NetworkPolicies inserted, deleted, deleted+reinserted changed; ANPs inserted in non-priority order and deleted through the inserted or an equal fresh object; the BANP inserted, deleted, replaced; deletes of never-inserted objects of every kind; ClearResources followed by the return of the namespaces and pods with only some of the policies), with a fixed query set (pod pairs x boundary ports x TCP/UDP) asked after every step; " +
+		Rule: "cases: histories of up to 40 InsertObject / DeleteObject / SetResources calls on one PolicyEngine - empty at first and filled one by one or through the bulk setter, or created by NewPolicyEngineWithObjects from the initial objects - (pods with controller owners - several per owner - relabelled, re-ported, added, deleted; namespaces inserted, relabelled, deleted; NetworkPolicies inserted, deleted, deleted+reinserted changed; ANPs inserted in non-priority order and deleted through the inserted or an equal fresh object; the BANP inserted, deleted, replaced; deletes of never-inserted objects of every kind; ClearResources followed by the return of the namespaces and pods with only some of the policies), with a fixed query set (pod pairs x boundary ports x TCP/UDP) asked after every step; " +
 			"oracle: the history engine's answer must equal the answer of a fresh engine built with NewPolicyEngineWithObjects from the objects current at that moment (the reference model is consulted too: where fresh engine and model disagree the query is not judged here); the engine's own cache-hit counter, read around every query, says which answers came out of the cache; " +
 			"non-trivial = at least one answer after an update came from the cache and at least one answer changed over the history; distinct = hash of the operation sequence",
 		Assumptions:       []string{"current objects = the objects of the successful calls so far (model state kept by the harness)", "a NetworkPolicy is updated by delete + insert (InsertObject rejects an existing name)"},
@@ -29,7 +29,7 @@ func init() {
 		MinEffectiveShare: 0.5,
 		RequiredEvents: map[string]int64{"steps": 5000, "queries": 200000, "cache_hits_after_update": 5000, "answers_changed_by_a_step": 1000, "deletes_of_absent_objects": 300,
 			"op_nsRelabel": 100, "op_nsDelete": 50, "op_anpInsert": 100, "op_anpDelete": 100, "op_banpInsert": 50, "op_banpDelete": 50, "op_npInsert": 100, "op_npDelete": 100,
-			"op_podRelabel": 100, "op_podDelete": 50, "op_podPorts": 50, "op_podRecreate": 50, "op_SetResources": 100, "op_clearRepopulate": 50},
+			"op_podRelabel": 100, "op_podDelete": 50, "op_podPorts": 50, "op_podRecreate": 50, "op_SetResources": 100, "op_clearRepopulate": 50, "histories_starting_from_the_constructor": 100},
 	})
 }
 
@@ -108,7 +108,21 @@ func runC15(c *run.Ctx) {
 	}
 	docs := w.Docs()
 	rng.Shuffle(g, docs)
-	if c.Idx%3 == 0 { // initial state through the bulk setter, the rest one by one
+	if c.Idx%3 == 1 { // initial state handed to the constructor (the route list and diff take), every later step through InsertObject / DeleteObject
+		objs, err := observe.ObjectsFromWorld(w)
+		if err != nil {
+			r.Discarded = "objects: " + err.Error()
+			return
+		}
+		eng, cr := observe.NewEngineWithObjects(objs)
+		st.log = append(st.log, "NewPolicyEngineWithObjects "+fmt.Sprint(len(objs))+" objects")
+		if cr.Panic != "" || cr.HasErr {
+			r.Violate("c15.history", "c15.history:constructor:error", "an engine holding the initial objects", "panic/error: "+cr.Panic+cr.Err, "")
+			return
+		}
+		st.eng = eng
+		r.Ev("histories_starting_from_the_constructor", 1)
+	} else if c.Idx%3 == 0 { // initial state through the bulk setter, the rest one by one
 		objs := []runtime.Object{}
 		kinds := map[runtime.Object]world.Doc{}
 		for _, d := range docs {
